@@ -96,8 +96,52 @@ def make_files(sc, case):
 			pass
 		elif f['kind'] == 'garbage':
 			p.write_bytes(b'\x1f\x8b\x08garbage-not-gzip')   # gzip magic, invalid stream
+		elif f['kind'] == 'padded':
+			# a distinct short sequence followed by `mib` MiB of N padding (size skew without signature cost)
+			with open(p, 'wb') as fh:
+				fh.write(b'>c1\n' + bytes.fromhex(f['contigs'][0]) + b'\n>pad\n')
+				line = b'N' * 79 + b'\n'
+				fh.write(line * int(f['mib'] * 1048576 // 80))
+		elif f['kind'] == 'truncgz':
+			# valid gzip start: several records parse before the stream ends unexpectedly
+			import gzip as _gz
+			recs = b''.join(b'>r%d\n' % j + bytes.fromhex(c) + b'\n' for j, c in enumerate(f['contigs']))
+			data = _gz.compress(recs + b'>tail\n' + b'ACGT' * 20000 + b'\n')
+			p.write_bytes(data[:len(data) - max(30, len(data) // 3)])
 		files.append(SequenceFile(p, 'fasta', 'auto'))
 	return files
+
+
+def check_reuse(ctx, case):
+	"""several calls on ONE caller-supplied pool; every call is judged on its own"""
+	from gambit.kmers import KmerSpec
+	from gambit.sigs.calc import calc_file_signatures, calc_file_signature
+	import numpy as np
+	sc = dbutil.Scratch('gv_c13_')
+	lines, pf = [], []
+	try:
+		kspec = KmerSpec(case.get('k', 4), case.get('prefix', 'AT'))
+		with ThreadPoolExecutor(max_workers=case.get('workers', 1)) as pool:
+			for ci, call in enumerate(case['calls']):
+				sub = sc.subdir(f'call{ci}')
+				sc2 = type('S', (), {'path': staticmethod(lambda name, _d=sub: _d / name)})
+				files = make_files(sc2, {'files': call})
+				results = []
+				for f in files:
+					try:
+						results.append(nats(calc_file_signature(kspec, f).tolist()))
+					except Exception:
+						results.append('E')
+				try:
+					out = calc_file_signatures(kspec, files, executor=pool)
+					real = natlists([np.asarray(s).tolist() for s in out]) if len(out) else '_'
+				except Exception:
+					real = 'err'
+				lines.append(f'c13.run {";".join(results) if results else "_"} {nats(range(len(files)))} {real}')
+		case['_nt'] = len(case['calls']) >= 2
+		return lines, pf
+	finally:
+		sc.cleanup()
 
 
 def check(ctx, case):
@@ -105,6 +149,8 @@ def check(ctx, case):
 	from gambit.sigs.calc import calc_file_signatures, calc_file_signature
 	from gambit.sigs.base import SignatureList
 	import numpy as np
+	if case['mode'] == 'reuse-pool':
+		return check_reuse(ctx, case)
 	sc = dbutil.Scratch('gv_c13_')
 	try:
 		kspec = KmerSpec(case.get('k', 4), case.get('prefix', 'AT'))
@@ -128,6 +174,8 @@ def check(ctx, case):
 				out = calc_file_signatures(kspec, files, concurrency=None)
 			elif mode in ('threads', 'processes'):
 				out = calc_file_signatures(kspec, files, concurrency=mode, max_workers=case.get('workers'))
+			elif mode == 'reuse-pool':
+				raise RuntimeError('handled separately')
 			elif mode == 'own-pool':
 				with ThreadPoolExecutor(max_workers=case.get('workers', 2)) as pool:
 					out = calc_file_signatures(kspec, files, executor=pool)
@@ -192,6 +240,40 @@ def run(ctx):
 					break
 				sub({'files': files, 'mode': 'controlled', 'order': list(order)}, 'controlled-failing-file')
 	ctx.exhaustive = [f'all completion orders of n <= {min(nmax, 4)} files (sampled above), failing file at every position']
+	# size skew in whole-MiB steps (later / larger files finish in a different order than they were given)
+	for sizes in ([0.05, 2.3, 1.2], [1.2, 0.05, 2.3], [2.3, 1.2, 0.05], [0.05, 3.2, 1.1, 2.1], [1.1, 2.2, 0.1]):
+		if not ctx.time_left(0.75):
+			break
+		files = [{'kind': 'padded', 'contigs': [dbutil.rand_dna(rng, 60).hex()], 'mib': m} for m in sizes]
+		for mode, workers in [('threads', 2), ('processes', 2), ('own-pool', 2), ('threads', None), ('sequential', None)]:
+			sub({'files': files, 'mode': mode, 'workers': workers}, 'size-skew')
+		for order in itertools.permutations(range(len(sizes))):
+			if len(sizes) <= 3:
+				sub({'files': files, 'mode': 'controlled', 'order': list(order)}, 'size-skew-controlled')
+	# many small files, few workers
+	for j in range(ctx.q(8, 80)):
+		if not ctx.time_left(0.85):
+			break
+		n = rng.randint(9, 40)
+		files = [rand_file(rng) for _ in range(n)]
+		mode = rng.choice(['threads', 'processes', 'own-pool', 'controlled'])
+		case = {'files': files, 'mode': mode, 'workers': rng.choice([1, 2, 3])}
+		if mode == 'controlled':
+			order = list(range(n)); rng.shuffle(order)
+			case['order'] = order
+		sub(case, 'many-files')
+	# one caller-supplied pool reused over several calls, a failing call in between (a file that breaks part-way through parsing)
+	for j in range(ctx.q(30, 200)):
+		if not ctx.time_left(0.9):
+			break
+		calls = []
+		for c in range(rng.randint(2, 4)):
+			n = rng.randint(1, 4)
+			call = [rand_file(rng) for _ in range(n)]
+			if c < 3 and rng.random() < 0.6:
+				call[rng.randrange(n)] = {'kind': 'truncgz', 'contigs': [dbutil.rand_dna(rng, rng.randint(30, 200)).hex() for _ in range(rng.randint(1, 3))]}
+			calls.append(call)
+		sub({'files': [f for call in calls for f in call], 'calls': calls, 'mode': 'reuse-pool', 'workers': rng.choice([1, 1, 2])}, 'reuse-pool')
 	# sequential and real pools
 	for j in range(ctx.q(25, 300)):
 		if not ctx.time_left(0.95):
